@@ -525,16 +525,61 @@ func (t *Topic) handleTopicTermination(sd *shutDown) {
 	}
 	// In case of a system shutdown don't bother with notifications. They won't be delivered anyway.
 
-	// Tell sessions to remove the topic
+	// Tell sessions to remove the topic. Ordinary sessions are unlinked right away: a queued detach
+	// request is handled only when the session's write loop gets to it (for a long polling session at
+	// its next poll), and until then the session would keep sending requests to this topic.
 	for s := range t.sessions {
+		if !s.isCluster() {
+			s.delSub(t.name)
+		}
 		s.detachSession(t.name)
 	}
 
 	usersRegisterTopic(t, false)
 
+	// The topic's run loop exits after this call: requests already queued for the topic would
+	// never be answered and the sessions' in-flight request accounting would never be released.
+	t.rejectPendingRequests()
+
 	// Report completion back to sender, if 'done' is not nil.
 	if sd.done != nil {
 		sd.done <- true
+	}
+}
+
+// rejectPendingRequests replies to the requests still queued for a topic which is being terminated
+// and releases the sessions' in-flight request counters (same as topicInit does on failure).
+func (t *Topic) rejectPendingRequests() {
+	now := types.TimeNow()
+	for len(t.reg) > 0 {
+		msg := <-t.reg
+		if msg.sess != nil {
+			if msg.sess.inflightReqs != nil {
+				msg.sess.inflightReqs.Done()
+			}
+			msg.sess.queueOut(ErrLockedReply(msg, now))
+		}
+	}
+	for len(t.unreg) > 0 {
+		msg := <-t.unreg
+		if msg.init && msg.sess != nil {
+			if msg.sess.inflightReqs != nil {
+				msg.sess.inflightReqs.Done()
+			}
+			msg.sess.queueOut(ErrLockedReply(msg, now))
+		}
+	}
+	for len(t.clientMsg) > 0 {
+		msg := <-t.clientMsg
+		if msg.init && msg.Note == nil && msg.sess != nil {
+			msg.sess.queueOut(ErrLockedReply(msg, now))
+		}
+	}
+	for len(t.meta) > 0 {
+		msg := <-t.meta
+		if msg.init && msg.sess != nil {
+			msg.sess.queueOut(ErrLockedReply(msg, now))
+		}
 	}
 }
 
